@@ -398,7 +398,7 @@ def depth_programs(tier):
     }
     # building a value nested n deep costs O(n^2) in this interpreter (the element type is rebuilt at every
     # step), so 10^4 is the practical ceiling (about a minute per program in the dev build)
-    depths = [100, 1000, 3000] if tier == "quick" else [100, 300, 1000, 3000, 10000]
+    depths = [100, 1000, 2000] if tier == "quick" else [100, 300, 1000, 3000, 10000]
     if tier == "quick":
         shapes = {k: shapes[k] for k in ("list", "option", "struct")}
     for sh, (base, step) in shapes.items():
